@@ -182,6 +182,12 @@ func (r *runner) oracle(h *History, n int, o *Op, e encoded, pre, post []*dRec, 
 		}
 	}
 	p, q := pre[id], post[id]
+	if (o.M == "revokeID" || o.M == "revokeIDByController") && q.Flag != 2 {
+		r.c.Fail("revocation-not-recorded:"+o.M, "an accepted revocation leaves the identity flagged as revoked", in(), w.coqRec(q), "flag 2")
+	}
+	if p.Flag == 0 && q.Flag != 1 {
+		r.c.Fail("registration-not-recorded:"+o.M, "an accepted registration leaves the identity flagged as registered", in(), w.coqRec(q), "flag 1")
+	}
 	if q.Damaged != "" {
 		r.c.Fail("damaged-record:"+o.M, "stored record decodes", in(), q.Damaged, "")
 	}
